@@ -1134,97 +1134,7 @@ func checkC10(w *World, r *Report) {
 	})
 
 	r.Rule("R10.5", "line/column bookkeeping: the column printed is pos − (index of the last line break + 1) for every index from −1 (none) up, index 0 included; where the computation has another shape, at least the 'no earlier line break' test on the LastIndex result treats index 0 as found", 2)
-	r.guard("R10.5", func() {
-		for _, m := range []string{"ErrorContextPosition", "errorf"} {
-			root := w.SSAFunc(w.Method("parse", "Tree", m))
-			if root == nil {
-				panic(undecided{"Tree." + m})
-			}
-			// the function and the in-package helpers it calls
-			cone := []*ssa.Function{root}
-			seen := map[*ssa.Function]bool{root: true}
-			for i := 0; i < len(cone) && i < 40; i++ {
-				for _, b := range cone[i].Blocks {
-					for _, in := range b.Instrs {
-						if c, ok := in.(ssa.CallInstruction); ok {
-							if g := c.Common().StaticCallee(); g != nil && g.Pkg == root.Pkg && g.Blocks != nil && !seen[g] {
-								seen[g] = true
-								cone = append(cone, g)
-							}
-						}
-					}
-				}
-			}
-			n, tests, nLin := 0, 0, 0
-			bad, badLin := "", ""
-			dom := ISet{{-1, fullISet[0].hi}}
-			for _, g := range cone {
-				for _, b := range g.Blocks {
-					for _, in := range b.Instrs {
-						c, ok := in.(*ssa.Call)
-						if !ok || c.Call.StaticCallee() == nil || !strings.HasPrefix(c.Call.StaticCallee().String(), "strings.LastIndex") {
-							continue
-						}
-						n++
-						if v, decided := c10ColumnIsOffsetInLine(w, g, c, g != root); decided {
-							nLin++
-							if v != "" {
-								badLin = v
-							}
-						}
-						for _, ref := range *c.Referrers() {
-							bo, ok := ref.(*ssa.BinOp)
-							if !ok {
-								continue
-							}
-							var k int64
-							var isK bool
-							op := bo.Op
-							if bo.X == ssa.Value(c) {
-								k, isK = intConstOf(bo.Y)
-							} else {
-								k, isK = intConstOf(bo.X)
-								op = map[token.Token]token.Token{token.LSS: token.GTR, token.GTR: token.LSS, token.LEQ: token.GEQ, token.GEQ: token.LEQ, token.EQL: token.EQL, token.NEQ: token.NEQ}[op]
-							}
-							if !isK {
-								continue
-							}
-							var set ISet
-							switch op {
-							case token.EQL, token.NEQ:
-								set = isetOf(k)
-							case token.LSS:
-								set = ISet{{fullISet[0].lo, k - 1}}
-							case token.LEQ:
-								set = ISet{{fullISet[0].lo, k}}
-							case token.GTR:
-								set = ISet{{k + 1, fullISet[0].hi}}
-							case token.GEQ:
-								set = ISet{{k, fullISet[0].hi}}
-							default:
-								continue
-							}
-							tests++
-							set = set.intersect(dom)
-							if !set.equal(isetOf(-1)) && !set.equal(ISet{{0, fullISet[0].hi}}) {
-								bad = w.PosStr(bo.Pos())
-							}
-						}
-					}
-				}
-			}
-			if n > 0 && nLin == n {
-				// decided as a whole: the column is pos − (index of the last line break + 1) for every index from −1 up
-				r.Check(badLin == "", "R10.5", "Tree."+m+" not-found test", root.Pos(), "column = pos − (LastIndex + 1) for every index ≥ −1", "the column printed is not the offset within the line: "+badLin)
-				continue
-			}
-			if n == 0 || tests == 0 {
-				r.Fail("R10.5", "Tree."+m, root.Pos(), "no LastIndex-based column computation found")
-				continue
-			}
-			r.Check(bad == "", "R10.5", "Tree."+m+" not-found test", root.Pos(), "== -1 / < 0", "a line break at byte 0 is treated as 'not found' ("+bad+"): columns on line 2 are counted from the start of the text")
-		}
-	})
+	r.guard("R10.5", func() { c10ColumnRule(w, r, "R10.5") })
 }
 
 // c08EscapeFlag: flag discipline of escapeSequenceSubstitution (shared by C08 and C10).
@@ -1673,4 +1583,97 @@ func c10ColumnIsOffsetInLine(w *World, g *ssa.Function, r *ssa.Call, helper bool
 		}
 	}
 	return bad, true
+}
+
+// c10ColumnRule: the line/column bookkeeping of Tree.ErrorContextPosition and Tree.errorf (R10.5, R09.16).
+func c10ColumnRule(w *World, r *Report, rule string) {
+	for _, m := range []string{"ErrorContextPosition", "errorf"} {
+		root := w.SSAFunc(w.Method("parse", "Tree", m))
+		if root == nil {
+			panic(undecided{"Tree." + m})
+		}
+		// the function and the in-package helpers it calls
+		cone := []*ssa.Function{root}
+		seen := map[*ssa.Function]bool{root: true}
+		for i := 0; i < len(cone) && i < 40; i++ {
+			for _, b := range cone[i].Blocks {
+				for _, in := range b.Instrs {
+					if c, ok := in.(ssa.CallInstruction); ok {
+						if g := c.Common().StaticCallee(); g != nil && g.Pkg == root.Pkg && g.Blocks != nil && !seen[g] {
+							seen[g] = true
+							cone = append(cone, g)
+						}
+					}
+				}
+			}
+		}
+		n, tests, nLin := 0, 0, 0
+		bad, badLin := "", ""
+		dom := ISet{{-1, fullISet[0].hi}}
+		for _, g := range cone {
+			for _, b := range g.Blocks {
+				for _, in := range b.Instrs {
+					c, ok := in.(*ssa.Call)
+					if !ok || c.Call.StaticCallee() == nil || !strings.HasPrefix(c.Call.StaticCallee().String(), "strings.LastIndex") {
+						continue
+					}
+					n++
+					if v, decided := c10ColumnIsOffsetInLine(w, g, c, g != root); decided {
+						nLin++
+						if v != "" {
+							badLin = v
+						}
+					}
+					for _, ref := range *c.Referrers() {
+						bo, ok := ref.(*ssa.BinOp)
+						if !ok {
+							continue
+						}
+						var k int64
+						var isK bool
+						op := bo.Op
+						if bo.X == ssa.Value(c) {
+							k, isK = intConstOf(bo.Y)
+						} else {
+							k, isK = intConstOf(bo.X)
+							op = map[token.Token]token.Token{token.LSS: token.GTR, token.GTR: token.LSS, token.LEQ: token.GEQ, token.GEQ: token.LEQ, token.EQL: token.EQL, token.NEQ: token.NEQ}[op]
+						}
+						if !isK {
+							continue
+						}
+						var set ISet
+						switch op {
+						case token.EQL, token.NEQ:
+							set = isetOf(k)
+						case token.LSS:
+							set = ISet{{fullISet[0].lo, k - 1}}
+						case token.LEQ:
+							set = ISet{{fullISet[0].lo, k}}
+						case token.GTR:
+							set = ISet{{k + 1, fullISet[0].hi}}
+						case token.GEQ:
+							set = ISet{{k, fullISet[0].hi}}
+						default:
+							continue
+						}
+						tests++
+						set = set.intersect(dom)
+						if !set.equal(isetOf(-1)) && !set.equal(ISet{{0, fullISet[0].hi}}) {
+							bad = w.PosStr(bo.Pos())
+						}
+					}
+				}
+			}
+		}
+		if n > 0 && nLin == n {
+			// decided as a whole: the column is pos − (index of the last line break + 1) for every index from −1 up
+			r.Check(badLin == "", rule, "Tree."+m+" not-found test", root.Pos(), "column = pos − (LastIndex + 1) for every index ≥ −1", "the column printed is not the offset within the line: "+badLin)
+			continue
+		}
+		if n == 0 || tests == 0 {
+			r.Fail(rule, "Tree."+m, root.Pos(), "no LastIndex-based column computation found")
+			continue
+		}
+		r.Check(bad == "", rule, "Tree."+m+" not-found test", root.Pos(), "== -1 / < 0", "a line break at byte 0 is treated as 'not found' ("+bad+"): columns on line 2 are counted from the start of the text")
+	}
 }
